@@ -92,6 +92,13 @@ def _replay(key, wname, params, k, T):
 
 
 def replay(payload):
+    if payload.get("kind") == "collision":
+        pr = collision_problem(payload["a"], payload["b"])
+        return bool(pr), pr or "no collision"
+    return _replay_period(payload)
+
+
+def _replay_period(payload):
     return _replay(payload["key"], payload["wrapper"], payload["params"], payload["k"], payload["T"])
 
 
@@ -126,6 +133,122 @@ def work(item):
     return obl.run_instance(name, build, consume)
 
 
+# ------------------------------------------------------------------ structural collisions
+# Circuits that differ in STRUCTURE (operator class, wires, matrix-valued data and its conjugate, wrappers, observable shape and
+# term multiplicities, measurement kind and wire order, shots).  Two members with the same hash are served from the same cache
+# entry, so they must give the same results: for every pair with equal hash the results of default.qubit are compared.
+def _U(t):
+    return np.array([[np.exp(-1j * t), 0], [0, np.exp(1j * t)]])
+
+
+def _V(t):
+    c, s_ = np.cos(t), np.sin(t)
+    return np.array([[c, -1j * s_], [-1j * s_, c]]) @ np.diag([1, np.exp(0.7j)])
+
+
+def family():
+    X, Y, Z, H = qp.PauliX, qp.PauliY, qp.PauliZ, qp.Hadamard
+    base = lambda: [qp.RY(0.4, 0), qp.RX(0.9, 1), qp.CNOT([0, 1])]
+    ops_variants = {
+        "base": lambda: base(),
+        "RX on wire 0": lambda: base() + [qp.RX(0.37, 0)],
+        "RX on wire 1": lambda: base() + [qp.RX(0.37, 1)],
+        "RY on wire 0": lambda: base() + [qp.RY(0.37, 0)],
+        "QubitUnitary(U)": lambda: base() + [qp.QubitUnitary(_U(0.37), 0)],
+        "QubitUnitary(conj U)": lambda: base() + [qp.QubitUnitary(np.conj(_U(0.37)), 0)],
+        "QubitUnitary(V)": lambda: base() + [qp.QubitUnitary(_V(0.37), 1)],
+        "QubitUnitary(conj V)": lambda: base() + [qp.QubitUnitary(np.conj(_V(0.37)), 1)],
+        "QubitUnitary(V^T)": lambda: base() + [qp.QubitUnitary(_V(0.37).T, 1)],
+        "DiagonalQubitUnitary(d)": lambda: base() + [qp.DiagonalQubitUnitary(np.array([np.exp(0.3j), np.exp(-0.8j)]), 0)],
+        "DiagonalQubitUnitary(conj d)": lambda: base() + [qp.DiagonalQubitUnitary(np.conj(np.array([np.exp(0.3j), np.exp(-0.8j)])), 0)],
+        "S": lambda: base() + [qp.S(0)],
+        "adjoint(S)": lambda: base() + [qp.adjoint(qp.S(0))],
+        "pow(SX, 2)": lambda: base() + [qp.pow(qp.SX(0), 2)],
+        "pow(SX, 3)": lambda: base() + [qp.pow(qp.SX(0), 3)],
+        "ctrl(RZ) cv=1": lambda: base() + [qp.ctrl(qp.RZ(0.37, 1), control=0)],
+        "ctrl(RZ) cv=0": lambda: base() + [qp.ctrl(qp.RZ(0.37, 1), control=0, control_values=[0])],
+        "CRZ": lambda: base() + [qp.CRZ(0.37, [0, 1])],
+        "CRZ reversed wires": lambda: base() + [qp.CRZ(0.37, [1, 0])],
+        "StatePrep |+i>": lambda: [qp.StatePrep(np.array([1, 1j]) / np.sqrt(2), 0)] + base(),
+        "StatePrep |-i>": lambda: [qp.StatePrep(np.array([1, -1j]) / np.sqrt(2), 0)] + base(),
+        "PauliRot XY": lambda: base() + [qp.PauliRot(0.37, "XY", [0, 1])],
+        "PauliRot YX": lambda: base() + [qp.PauliRot(0.37, "YX", [0, 1])],
+    }
+    meas_variants = {
+        "expval Z0": lambda: [qp.expval(Z(0))],
+        "expval X0+X0+Z1": lambda: [qp.expval(qp.sum(X(0), X(0), Z(1)))],
+        "expval X0+Z1+Z1": lambda: [qp.expval(qp.sum(X(0), Z(1), Z(1)))],
+        "expval X0+Z1": lambda: [qp.expval(qp.sum(X(0), Z(1)))],
+        "expval Z1+X0": lambda: [qp.expval(qp.sum(Z(1), X(0)))],
+        "expval 2*X0": lambda: [qp.expval(qp.s_prod(2.0, X(0)))],
+        "expval X0": lambda: [qp.expval(X(0))],
+        "var X0": lambda: [qp.var(X(0))],
+        "expval X0@Y1": lambda: [qp.expval(X(0) @ Y(1))],
+        "expval Y1@X0": lambda: [qp.expval(Y(1) @ X(0))],
+        "expval Y0@X1": lambda: [qp.expval(Y(0) @ X(1))],
+        "probs [0,1]": lambda: [qp.probs(wires=[0, 1])],
+        "probs [1,0]": lambda: [qp.probs(wires=[1, 0])],
+        "expval Hermitian(A)": lambda: [qp.expval(qp.Hermitian(np.array([[1.0, 0.5 - 0.5j], [0.5 + 0.5j, -2.0]]), 0))],
+        "expval Hermitian(conj A)": lambda: [qp.expval(qp.Hermitian(np.conj(np.array([[1.0, 0.5 - 0.5j], [0.5 + 0.5j, -2.0]])), 0))],
+        "expval Ham(0.5 X0, 1.5 Z1)": lambda: [qp.expval(qp.Hamiltonian([0.5, 1.5], [X(0), Z(1)]))],
+        "expval Ham(1.5 X0, 0.5 Z1)": lambda: [qp.expval(qp.Hamiltonian([1.5, 0.5], [X(0), Z(1)]))],
+        "expval Z0, expval X1": lambda: [qp.expval(Z(0)), qp.expval(X(1))],
+        "expval X1, expval Z0": lambda: [qp.expval(X(1)), qp.expval(Z(0))],
+    }
+    fam = {}
+    for ok, of in ops_variants.items():
+        fam[f"ops[{ok}] + expval Z0@Z1"] = (of, lambda: [qp.expval(Z(0) @ Z(1)), qp.probs(wires=[0, 1])])
+    for mk, mf in meas_variants.items():
+        fam[f"base + [{mk}]"] = (ops_variants["RX on wire 0"], mf)
+    return fam
+
+
+def _results(of, mf):
+    tape = qp.tape.QuantumScript(of(), mf())
+    res = qp.device("default.qubit", wires=[0, 1]).execute(tape)
+    res = res if isinstance(res, tuple) else (res,)
+    return tape, [np.asarray(r, dtype=complex).ravel() for r in res]
+
+
+def collision_problem(a, b):
+    fam = family()
+    ta, ra = _results(*fam[a])
+    tb, rb = _results(*fam[b])
+    if ta.hash != tb.hash:
+        return None
+    same = len(ra) == len(rb) and all(x.shape == y.shape and np.max(np.abs(x - y)) < 1e-9 for x, y in zip(ra, rb))
+    if same:
+        return None
+    ex = qp.execute([ta, tb], qp.device("default.qubit", wires=[0, 1]), cache=True)
+    def fmt(r):
+        r = r if isinstance(r, (tuple, list)) else (r,)
+        return [np.round(np.asarray(x, dtype=complex).ravel(), 4).tolist() for x in r]
+
+    return f"circuits '{a}' and '{b}' have the same hash but different results; qp.execute(cache=True) returned {[fmt(e) for e in ex]}, uncached results {fmt(ra)} vs {fmt(rb)}"
+
+
+def collision_work(group):
+    """one obligation per first circuit: paired with every other family member"""
+    a = group
+    fam = list(family())
+    probs = []
+    for b in fam:
+        if b == a:
+            continue
+        pr = collision_problem(a, b)
+        if pr:
+            probs.append((b, pr))
+    rec = {"name": f"[structural] '{a}' shares its hash only with circuits that give the same results ({len(fam) - 1} partners)", "status": "violated" if probs else "discharged", "symbols": [], "nontrivial": False, "queries": 0,
+           "detail": probs[0][1] if probs else "no hash collision with a differently behaving circuit"}
+    if probs:
+        rec.update(signature=f"collision:{a}", replay={"kind": "collision", "a": a, "b": probs[0][0], "observed": probs[0][1]})
+    return [rec]
+
+
+def _dispatch(it):
+    return collision_work(it[1]) if it[0] == "collision" else work(it)
+
+
 def run(ctx):
     ctx.level = "proof"
     kp = keyed_periods()
@@ -137,17 +260,19 @@ def run(ctx):
             if ctx.tier == "quick" and wname in ("pow3", "adjoint_ctrl1") and inst.nparams > 1:
                 continue
             items.append((key, k, T, wname))
+    items += [("collision", a) for a in family()]
     if ctx.only:
-        items = [it for it in items if ctx.only in f"{it[3]}({it[0]})"]
+        items = [it for it in items if ctx.only in (f"{it[3]}({it[0]})" if it[0] != "collision" else f"collision {it[1]}")]
     ctx.shapes = len(items)
     import pennylane.core.operator.base as B
     import pennylane.core.operator.operator2 as O2
 
     ctx.encode(B._process_data, O2._canonicalize_dynamic, qp.matrix, qp.ctrl, qp.adjoint, qp.pow, qp.prod)
     ctx.bound(parameters="all real values", wrappers=list(wrappers(1)), periods_probed="2pi, 4pi, 8pi",
-              outside="structural hash separation (wires, hyper-parameters, trainable indices, shots), LRU behaviour, the round(.,10) slab, fractional powers")
+              structural="a family of 42 structurally different circuits (operator class, wires, matrix data and its conjugate / transpose, wrappers, observable term multiplicities and order, measurement kind and wire order): every pair with equal hash must give equal results",
+              outside="trainable indices, shots, LRU behaviour, the round(.,10) slab, fractional powers, str() elision of arrays with more than 1000 elements")
     ctx.assume(*sx.SHIM_NOTES, "the set of (class, parameter, period) keyed by the hash is found by calling the real hash at 2 concrete points per period")
     ctx.rule = "one obligation per (keyed class, parameter index, period, wrapper); all contain symbolic parameters"
     if not items:
         ctx.add({"name": "no operator class is keyed modulo a period by the hash", "status": "discharged", "symbols": [], "nontrivial": False})
-    ctx.pmap(work, items, timeout_each=300)
+    ctx.pmap(_dispatch, items, timeout_each=300)
